@@ -237,7 +237,10 @@ MultiIndexSet getLargestConnected(MultiIndexSet const &current, MultiIndexSet co
     if (total.empty()) return MultiIndexSet(); // current was empty and no roots could be added
 
     int max_kids      = RuleLocal::getMaxNumKids<effrule>();
-    int max_relatives = RuleLocal::getMaxNumParents<effrule>() + max_kids;
+    int max_parents   = RuleLocal::getMaxNumParents<effrule>();
+    // points 3 and 4 of the semi-local rule have step-parents 2 and 1, getKid() does not list the reverse relation (step-kids)
+    // without it a point connected only through its step-parent is accepted when delivered alone but not in a batch
+    int max_relatives = max_parents + max_kids + ((effrule == RuleLocal::erule::semilocalp) ? 1 : 0);
     Data2D<int> update;
     do{
         update = Data2D<int>(num_dimensions, 0);
@@ -247,6 +250,8 @@ MultiIndexSet getLargestConnected(MultiIndexSet const &current, MultiIndexSet co
             for(auto &r : relative){
                 int k = r; // save the value
                 for(int j=0; j<max_relatives; j++){
+                    if (j >= max_kids + max_parents) r = (k == 1) ? 4 : ((k == 2) ? 3 : -1); // step-kids
+                    else
                     r = (j < max_kids) ? RuleLocal::getKid<effrule>(k, j)
                                        : ((j - max_kids == 0) ? RuleLocal::getParent<effrule>(k) : RuleLocal::getStepParent<effrule>(k));
                     if ((r != -1) && !candidates.missing(relative) && total.missing(relative))
